@@ -159,6 +159,13 @@ impl InputList {
                             "XML error near line {src_line}: '{r}' is not a reference XML allows"
                         )));
                     }
+                    // neither is well-formed, and content copied as written would carry it along
+                    let stray = if matches!(ok_ev, Event::Text(_)) { "]]>" } else { "<" };
+                    if content.contains(stray) {
+                        return Err(SvgdxError::ParseError(format!(
+                            "XML error near line {src_line}: '{stray}' must be escaped here"
+                        )));
+                    }
                 }
                 ok_ev.as_ref().iter().filter(|&c| *c == b'\n').count()
             } else {
